@@ -5,6 +5,7 @@ use crate::tree::Tree;
 use crate::universe::{self, Bounds};
 use std::collections::BTreeMap;
 
+pub mod api;
 pub mod c01;
 pub mod c02;
 pub mod c03;
@@ -149,4 +150,40 @@ pub fn universe_summary(ctx: &Ctx, bounds: &Bounds, skels: usize) {
         }),
     );
     let _ = universe::ACTS;
+}
+
+/// Run the explicit-state exploration of the Strategies object (checks/api.rs) from every coarse
+/// grid profile of every game of the small universe and the families, judging `invariant` at every
+/// reachable state; counts go to the context
+pub fn explore_api(ctx: &Ctx, class: &str, invariant: &(dyn Fn(&Tree, &crate::subject::G, &crate::subject::S, &Profile, &[api::Op]) -> Result<(), String> + Sync)) {
+    use rayon::prelude::*;
+    let small = Bounds { max_internal: 3, max_arity: 3, max_leaves: 5, chance_infosets: false, degenerate: true };
+    let mut games: Vec<Tree> = universe::skeletons(&small).iter().enumerate().filter(|(_, s)| has_decision(s)).map(|(i, s)| universe::fill_distinct(s, i)).collect();
+    games.extend(universe::families().into_iter().filter(|(n, _)| !n.starts_with("kuhn") && !n.starts_with("deep_chain_8")).map(|(_, t)| t));
+    let totals = std::sync::Mutex::new((0u64, 0u64, 0usize, 0u64));
+    games.par_iter().for_each(|tree| {
+        if ctx.stopped() {
+            return;
+        }
+        let game = match api::build_game(tree) {
+            Some(g) => g,
+            None => return,
+        };
+        let (profs, _) = profiles(tree, false, 10);
+        for init in &profs {
+            let res = api::explore(ctx, tree, &game, init, 3, class, &|obj, model, ops| invariant(tree, &game, obj, model, ops));
+            let mut t = totals.lock().unwrap();
+            t.0 += res.states;
+            t.1 += res.transitions;
+            t.2 = t.2.max(res.max_depth);
+            t.3 += 1;
+        }
+    });
+    let t = totals.lock().unwrap();
+    ctx.add(&ctx.states, t.0);
+    ctx.add(&ctx.evaluations, t.0);
+    ctx.add(&ctx.validated, t.0);
+    ctx.add(&ctx.nontrivial, t.0);
+    ctx.add(&ctx.transitions, t.1);
+    ctx.set("strategies_object_state_machine", serde_json::json!({"roots_(game,initial_profile)": t.3, "states_reached": t.0, "transitions": t.1, "max_depth": t.2, "alphabet": "truncate(0.25|0.5|0.6|0.3), re-import of the named view, clone"}));
 }
